@@ -8,6 +8,7 @@ pub mod model;
 pub mod obs;
 pub mod rng;
 pub mod tbl;
+pub mod twolevel;
 
 pub use ctx::{guard, run_sharded, silence_panics, Cli, Ctx, Ev, Outcome};
 pub use json::Json;
